@@ -71,7 +71,7 @@ package action
 //@   letold A = val(packet.TransferAttributes.destinationCoin.Amount)
 //@   letold D = packet.TransferAttributes.destinationCoin.Denom
 //@   letold fs = feeAttrsOf(packet).FeesInfo
-//@   modifies bank, packet.TransferAttributes.destinationCoin
+//@   modifies bank, events, packet.TransferAttributes.destinationCoin
 //@   ensures[C04]   err == nil ==> isFeeAttrs(packet) && validFees(fs)
 //@   ensures[C04]   err == nil ==> sum5(A, fs) < A && !isnil(ta.destinationCoin.Amount) && val(ta.destinationCoin.Amount) == A - sum5(A, fs)
 //@   ensures[C04]   err == nil ==> bank == feePay5(old(bank), A, D, fs)
